@@ -442,7 +442,7 @@ def _aligned_or_clear(u):
     return And(*conds)
 
 
-@contract(CS.conversion_surface_params, props=['C04', 'C02'], name='convert[torus]')
+@contract(CS.conversion_surface_params, props=['C04', 'C02', 'C08'], name='convert[torus]')
 class _ConvTorus:
     """Torus with an arbitrary unit axis.  The torus function depends on the point only through
     h^2 = ((pt-c).u)^2 and |pt-c|^2 (specs.surfaces.torus_hd); both are shown equal for the emitted T4 torus
@@ -450,6 +450,10 @@ class _ConvTorus:
     def cases(S):
         frame = (tuple(S.reals('p1 p2 p3')), tuple(S.unit3('u1 u2 u3')))
         yield 'unit-axis', {'key': 3, 'val': _torus_surface(S, frame)}
+        # the axis exactly along or against a coordinate axis (what a transformation that flips an axis produces)
+        for name, ax in (('+x', (1.0, 0.0, 0.0)), ('-x', (-1.0, 0.0, 0.0)), ('+y', (0.0, 1.0, 0.0)), ('-y', (0.0, -1.0, 0.0)),
+                         ('+z', (0.0, 0.0, 1.0)), ('-z', (0.0, 0.0, -1.0))):
+            yield f'axis={name}', {'key': 3, 'val': _torus_surface(S, (tuple(S.reals('p1 p2 p3')), ax))}
 
     def ghost(S):
         return {'pt': S.reals('X Y Z')}
@@ -864,7 +868,7 @@ def _mk_tr_kw(which):
     from contracts.c12 import _bare_parser
     from t4_geom_convert.Kernel.FileHandlers.Parser.ParseMCNPCell import ParseMCNPCell as PMC_
 
-    @contract(getattr(PMC_, f'parse_{which}_kw'), props=['C04', 'C05'], name=f'ParseMCNPCell.parse_{which}_kw[spellings]',
+    @contract(getattr(PMC_, f'parse_{which}_kw'), props=['C04', 'C05', 'C06', 'C15'], name=f'ParseMCNPCell.parse_{which}_kw[spellings]',
               status='B')
     class _C:
         """The transformation attached to a cell (TRCL / *TRCL, FILL / *FILL; by number, 3, 12 or 13 entries with m = 1)
@@ -909,7 +913,7 @@ _mk_tr_kw('fill')
 from t4_geom_convert.Kernel.Volume import ConstructVolumeT4 as _CVT4
 
 
-@contract(_CVT4.extract_tr_surf_ids, props=['C04'], name='ConstructVolumeT4.extract_tr_surf_ids', status='B')
+@contract(_CVT4.extract_tr_surf_ids, props=['C04', 'C01'], name='ConstructVolumeT4.extract_tr_surf_ids', status='B')
 class _ImplicitIds:
     """The implicit surface numbers (>= 1000) of a deck are exactly those referenced by some cell, in either sense,
     at any depth of the expression (parentheses, unions, complements of sub-expressions), whole or by facet."""
